@@ -403,3 +403,27 @@ PLAN["C11"]["units"] = PLAN["C11"]["units"] + [H1P + "stream_send"]
 PLAN["C17"]["units"] = PLAN["C17"]["units"] + [UT + "is_asgi"]
 # C01 "for every framing (content-length, chunked ...)": whether a request with a body is kept on HTTP/1
 PLAN["C01"]["units"] = PLAN["C01"]["units"] + [H1P + "_check_protocol"]
+
+# Session 3, after the counting rule changed: generous plans.  The remaining way for a change to
+# slip past the check of the property it breaks is a unit that is not in that property's plan, so
+# every property that involves a protocol gets that protocol's whole unit group, and every property
+# about connections gets the servers, the timer and task-group classes (all cheap units).
+_SB_ALL = [SB + m for m in ("__init__", "push", "pop", "drain", "set_complete", "close", "complete")]
+_H2_GROUP = H2_UNITS + _SB_ALL
+_H11_GROUP = H11_UNITS + [H1W + "receive_data", H1W + "next_event", "hypercorn.protocol.h11:H2CProtocolRequiredError.__init__", PWR + "__init__", PWR + "initiate", PWR + "handle"]
+_CONN_GROUP = SERVER_UNITS + SINGLE_UNITS + _SRV_INIT + _TG_REST + [ATG + "TaskGroup.spawn_app", TTG + "TaskGroup.spawn_app", ATG + "_handle", TTG + "_handle"]
+def _extend(pid, group):
+    have = set(PLAN[pid]["units"])
+    PLAN[pid]["units"] = PLAN[pid]["units"] + [u for u in group if u not in have]
+for _p in ("C01", "C02", "C03", "C05", "C07", "C08", "C09", "C10", "C13", "C15", "C18"):
+    _extend(_p, _H2_GROUP)
+    if LIB_H2[0] not in PLAN[_p]["trusted_base"]:
+        PLAN[_p]["trusted_base"] = PLAN[_p]["trusted_base"] + LIB_H2
+for _p in ("C01", "C02", "C03", "C05", "C07", "C13", "C15", "C18", "C10", "C11"):
+    _extend(_p, _H11_GROUP)
+    if LIB_H11[0] not in PLAN[_p]["trusted_base"]:
+        PLAN[_p]["trusted_base"] = PLAN[_p]["trusted_base"] + LIB_H11
+for _p in ("C01", "C02", "C03", "C05", "C06", "C08", "C13", "C14", "C15", "C18", "C04", "C07"):
+    _extend(_p, _CONN_GROUP)
+    if LIB_IO[0] not in PLAN[_p]["trusted_base"]:
+        PLAN[_p]["trusted_base"] = PLAN[_p]["trusted_base"] + LIB_IO
